@@ -893,9 +893,26 @@ def _max(interp, st, a, **kw):
     return r
 
 
+def _searchsorted_m(interp, st, a, v, side="left", **kw):
+    return np_searchsorted(interp, st, a, v, side)
+
+
+def _sort_any(interp, st, a, **kw):
+    if isinstance(a, CArr):
+        return None
+    vals = interp.arr_values(st, a)
+    if any(is_sym(v) for v in vals) and interp.facts is not None:
+        srt = try_concrete_order(interp, st, vals)
+        if srt is not None and len(srt) == len(vals):
+            for p, x in zip(a.positions(), srt):
+                st.wbuf(a.bufid)[p] = x
+            return None
+    return _sort_inplace(interp, st, a)
+
+
 ARRAY_METHODS = {
     "copy": _copy, "flatten": _flatten, "ravel": _ravel, "reshape": _reshape, "sum": _sum, "any": _any, "all": _all,
-    "mean": _mean, "astype": _astype, "sort": _sort_inplace, "item": _item, "tolist": _tolist, "min": _min, "max": _max,
+    "mean": _mean, "astype": _astype, "sort": _sort_any, "searchsorted": _searchsorted_m, "item": _item, "tolist": _tolist, "min": _min, "max": _max,
 }
 
 
@@ -973,11 +990,56 @@ def np_nanmedian(interp, st, a, **kw):
     return median_of(interp, st, vals, mask)
 
 
+def try_concrete_order(interp, st, vals):
+    """Sort symbolic values with comparisons decided by the harness facts; None if some comparison is open."""
+    out = []
+    for v in vals:
+        placed = False
+        for k in range(len(out)):
+            eqc = interp.decide(st, interp.A.cmp("==", v, out[k]))
+            if eqc is True:
+                placed = True
+                break
+            lt = interp.decide(st, interp.A.cmp("<", v, out[k]))
+            if lt is True:
+                out.insert(k, v)
+                placed = True
+                break
+            if lt is not False or eqc is not False:
+                return None
+        if not placed:
+            out.append(v)
+    return out
+
+
+@native
+def pd_unique(interp, st, a, **kw):
+    """pandas.unique: distinct values in order of first appearance."""
+    vals, mask = _values_of(interp, st, a)
+    out = []
+    for v in vals:
+        dup = False
+        for u in out:
+            e = interp.decide(st, interp.A.cmp("==", v, u)) if (is_sym(v) or is_sym(u)) else (v == u)
+            if e is True:
+                dup = True
+                break
+            if e is not False:
+                raise Unsupported("pandas.unique with undecided equality")
+        if not dup:
+            out.append(v)
+    return interp.new_array(st, (len(out),), a.dtype if isinstance(a, Arr) else "int64", cells=out)
+
+
 @native
 def np_unique(interp, st, a, **kw):
     vals, mask = _values_of(interp, st, a)
     if mask is not None:
         raise Unsupported("unique of compacted array")
+    if any(is_sym(x) for x in vals) and interp.facts is not None:
+        srt = try_concrete_order(interp, st, vals)
+        if srt is not None:
+            return interp.new_array(st, (len(srt),), a.dtype if isinstance(a, Arr) else "float64", cells=srt)
     if not any(is_sym(x) for x in vals):
         u = sorted(set(vals))
         return interp.new_array(st, (len(u),), a.dtype if isinstance(a, Arr) else "float64", cells=u)
@@ -1123,7 +1185,10 @@ def np_searchsorted(interp, st, a, v, side="left", **kw):
         op = "<" if side == "left" else "<="
         tot = 0
         for y in vals:
-            tot = A.add(tot, V.num_of_bool(interp.scalar_compare(st, op, y, x)))
+            c = interp.scalar_compare(st, op, y, x)
+            if is_sym(c):
+                c = interp.decide(st, c)
+            tot = A.add(tot, V.num_of_bool(c))
         if is_sym(tot):
             interp.int_bounds[tot.get_id()] = (0, len(vals))
             interp._alive.append(tot)
@@ -1601,7 +1666,7 @@ LIB = {
     "numpy.isfinite": np_isfinite, "numpy.cos": _np_ew("cos"), "numpy.sqrt": _np_ew("sqrt"), "numpy.log": _np_ew("log"),
     "numpy.median": np_median, "numpy.nanmedian": np_nanmedian, "numpy.unique": np_unique, "numpy.sort": np_sort, "numpy.where": np_where,
     "numpy.any": np_any, "numpy.all": np_all, "numpy.diff": np_diff, "numpy.searchsorted": np_searchsorted,
-    "numpy.log10": np_log10, "numpy.minimum": np_minimum, "numpy.maximum": np_maximum, "numpy.dtype": np_dtype,
+    "numpy.log10": np_log10, "numpy.minimum": np_minimum, "numpy.maximum": np_maximum, "numpy.dtype": np_dtype, "numpy.datetime64": native(lambda interp, st, v, *a: v), "pandas.unique": pd_unique,
     "numba.prange": numba_prange,
     "scipy.special.digamma": _special("digamma", 1), "scipy.special.gammainc": _special("gammainc", 2),
     "scipy.special.ndtri": _special("ndtri", 1),
